@@ -16,6 +16,24 @@ if TYPE_CHECKING:
     from .entity import ConditionType
 
 
+def _replace_in_parent(
+    parent: SymbolicExpression, old: SymbolicExpression, new: SymbolicExpression
+):
+    """
+    Put `new` where `old` was below `parent`, in the graph and in the operand that held `old`.
+
+    :param parent: The previous parent of `old`.
+    :param old: The node that was detached from `parent`.
+    :param new: The node that takes the place of `old`.
+    """
+    new._parent_ = parent
+    if isinstance(parent, BinaryOperator):
+        if parent.left is old:
+            parent.left = new
+        else:
+            parent.right = new
+
+
 def refinement(*conditions: ConditionType) -> SymbolicExpression[T]:
     """
     Add a refinement branch (ExceptIf node with its right the new conditions and its left the base/parent rule/query)
@@ -33,7 +51,7 @@ def refinement(*conditions: ConditionType) -> SymbolicExpression[T]:
     current_node._parent_ = None
     new_conditions_root = ExceptIf(SymbolicExpression._current_parent_(), new_branch)
     new_branch._node_.weight = RDREdge.Refinement
-    new_conditions_root._parent_ = prev_parent
+    _replace_in_parent(prev_parent, current_node, new_conditions_root)
     return new_conditions_root.right
 
 
@@ -79,9 +97,8 @@ def alternative_or_next(
     """
     new_branch = chained_logic(AND, *conditions)
     current_node = SymbolicExpression._current_parent_()
-    if isinstance(current_node._parent_, (Alternative, Next)):
-        current_node = current_node._parent_
-    elif (
+    # the new branch comes after the whole chain of branches written so far
+    while isinstance(current_node._parent_, (Alternative, Next)) or (
         isinstance(current_node._parent_, ExceptIf)
         and current_node is current_node._parent_.left
     ):
@@ -97,7 +114,5 @@ def alternative_or_next(
             f"Invalid type: {type_}, expected one of: {RDREdge.Alternative}, {RDREdge.Next}"
         )
     new_branch._node_.weight = type_
-    new_conditions_root._parent_ = prev_parent
-    if isinstance(prev_parent, BinaryOperator):
-        prev_parent.right = new_conditions_root
+    _replace_in_parent(prev_parent, current_node, new_conditions_root)
     return new_conditions_root.right
